@@ -86,7 +86,10 @@ def run(ctx):
         ctx.nontriv((spec["task"], spec["point"], spec["mode"], spec["init"]["root"]))
         traces.append({"tid": tid, "init": jc.spec_init(spec["init"]), "ev": o["ev"]})
     ideal = jc.validate_traces(ctx, traces, "ideal")
-    again = [t for t in traces if ideal[t["tid"]]["verdict"][0] != "accepted"]
+    def cwd_bad(t):
+        first = obs[t["tid"] - 1]["outs"][0]
+        return first.get("status") in ("ok", "raised") and not first.get("cwd_restored", True)
+    again = [t for t in traces if ideal[t["tid"]]["verdict"][0] != "accepted" or cwd_bad(t)]
     asb = jc.validate_traces(ctx, again, "asbuilt") if again else {}
     for t in traces:
         spec, o = specs[t["tid"] - 1], obs[t["tid"] - 1]
@@ -99,10 +102,10 @@ def run(ctx):
         if first.get("status") in ("ok", "raised"):
             if not first.get("cwd_restored", True):
                 direct.append("cwd not restored")
-        if v[0] == "accepted":
-            if direct:
-                ctx.violation(f"inject at {spec['point']}: {direct} although the trace satisfies the design", case=case, observed=first)
+        if v[0] == "accepted" and not direct:
             continue
+        if v[0] == "accepted":
+            v = ["observed", "cwd not restored after the call"]
         va = asb[t["tid"]]["verdict"]
         cls = "before-try" if spec["point"] in BEFORE_TRY else ("in-finally" if spec["point"] in IN_FINALLY else "other")
         ok_known = injected and cls in ("before-try", "in-finally") and (va[0] == "accepted" or (va[0] == "invariant" and va[1] in ("CwdRestored", "InfoRemoved", "DirHasJobAndResult")))
